@@ -54,6 +54,38 @@ CHECKS['C16'] = dict(
     technique='generated tables + interpreter model, induction over call trees and schedules, trace correspondence',
     design='4/C16')
 
+CHECKS['C11'] = dict(
+    text='Kernel-checked theorems over an executable model of Namer.new_symbol: for any namespace, any scope chain and any number '
+         'of requests the generated names are pairwise distinct, outside the namespace, outside the reserved set, and the search loop '
+         'terminates; with the reserved set that activity.Scope.referenced computes on this run (translated from source; side condition '
+         'covers_writes re-proved) no generated name equals a name the user code reads or writes in the requesting or an enclosing scope. '
+         'Tied by request-sequence correspondence against the real Namer and judged by a differential oracle over programs whose '
+         'identifiers come from the converter vocabulary in every role.',
+    note=NOTE_BASE + 'Identifiers are ASCII strings (str.isdigit on non-ASCII digits not modelled); the fixed alias ag__ is not '
+         'produced by the Namer (known finding); capture through names visible only via eval/locals is out of scope.',
+    technique='Coq proof (pigeonhole termination, freshness induction) + generated reserved-set table + differential oracle',
+    design='4/C11')
+CHECKS['C13'] = dict(
+    text='Kernel-checked theorems over decision tables regenerated from api.py, conversion.py, config.py and config_lib.py on every '
+         'run: the full conversion policy and its not-converted and fallback consequences (exhaustive over all ~7M situations, lifted '
+         'with forall-combinators), functools.partial unwrapping at any depth and rule prefix matching over all strings (inductive). '
+         'Tied by ~3.8k model/implementation cases and a differential oracle with fault injection at 24 pipeline stages. Partial: '
+         'binding is proved outside two known-finding callable kinds (binding_refuted).',
+    note=NOTE_BASE + 'Atom leaf tests (inspect.*, sys.modules scans, the weak-reference cache) are measured, not modelled; what '
+         'runs inside a converted callee is C01, builtin overloads are C14.',
+    technique='exhaustive finite proof + induction over tables generated from source, instrumented correspondence, fault-injecting oracle',
+    design='4/C13')
+CHECKS['C10'] = dict(
+    text='Kernel-checked theorems over an n-thread interleaving machine, for every program satisfying a decidable double-checked-'
+         'locking discipline, re-established on each run for the instruction skeleton extracted from PyToPy.transform_function: at '
+         'most one transform per key and epoch, coherence, no aliasing, no staleness, no errors, lock release -- all interleavings, all '
+         'request histories. Tied by deterministic forced schedules on the real PyToPy and cache-operation sequences on the real '
+         'CodeObjectCache. Partial: GIL atomicity, weakref and RLock behaviour are validated by the oracle, not proved; no_error is '
+         'refuted under alias GC (known finding).',
+    note=NOTE_BASE + 'Assumes GIL-atomic dict operations, RLock semantics, code objects compare by value, C20 eq/hash of options.',
+    technique='invariant proof over small-step interleaving semantics + generated skeleton + forced-schedule correspondence',
+    design='4/C10')
+
 NOT_YET = {}
 
 
